@@ -606,7 +606,14 @@ func (in *Interp) visit(fr *Frame, instr ssa.Instruction) continuation {
 		fr.set(ins, &Ptr{obj: o})
 
 	case *ssa.MakeSlice:
-		l := in.concreteInt(in.idx64(ins.Len.Type(), fr.get(ins.Len).(*Term)), "make len")
+		lt := in.idx64(ins.Len.Type(), fr.get(ins.Len).(*Term))
+		if !lt.konst && ins.Cap == ins.Len {
+			if sv, ok := in.makeSymSlice(ins, lt); ok {
+				fr.set(ins, sv)
+				break
+			}
+		}
+		l := in.concreteInt(lt, "make len")
 		c := in.concreteInt(in.idx64(ins.Cap.Type(), fr.get(ins.Cap).(*Term)), "make cap")
 		if l < 0 || c < l || c > 1<<24 {
 			in.goPanicRuntime("makeslice: len out of range")
